@@ -11,6 +11,7 @@ import (
 	"context"
 	"encoding/json"
 	"fmt"
+	"math"
 	"os"
 	"path"
 	"reflect"
@@ -534,6 +535,124 @@ func sampleOp(m string, repo, repo2 string, variant int) filt.Op {
 	return op
 }
 
+// ---- boundary values of the arguments that are not repository names ----
+//
+// A wrapper may treat particular argument values specially (the whole-blob range, the empty
+// upload id, a tag that reads as a digest, an empty start point ...): every method is
+// therefore called with each of these tuples, under every shape of context scope, and the
+// backend must see the same method with the same arguments under the once-rewritten scope.
+
+const maxI, minI = int64(math.MaxInt64), int64(math.MinInt64)
+
+var sha512Digest = S("sha512:" + strings.Repeat("0123456789abcdef", 8))
+
+// digest arguments: well-formed, empty, too short, another algorithm, not a digest at all
+var digestArgs = []S{someDigest, "", "sha256:ffff", sha512Digest, "latest"}
+
+// tag arguments: plain, empty, one that reads as a digest, with a slash, long
+var tagArgs = []S{"sometag", "", "latest", someDigest, "a/b", "Tag.with-odd_chars", S(strings.Repeat("t", 130))}
+
+// ranges of GetBlobRange: the whole blob in its several spellings, from the start, to the end,
+// empty, inverted, negative start, the extreme values
+var rangeArgs = [][2]int64{{3, 17}, {0, -1}, {0, -5}, {0, minI}, {0, 0}, {0, 1}, {0, 5}, {0, maxI}, {1, -1}, {5, -1}, {2, 4},
+	{3, 3}, {4, 2}, {-1, -1}, {-3, 7}, {maxI, -1}, {minI, minI}, {maxI, maxI}}
+
+// memRanges: the ranges that mean something to a 10-20 byte blob of newMem
+var memRanges = [][2]int64{{1, 5}, {0, -1}, {0, -7}, {0, 0}, {0, 5}, {0, 1000}, {1, -1}, {3, 3}, {5, 2}, {-1, 3}, {100, -1}, {0, 1}}
+
+// argTuples lists the operations of method m on repo (and repo2) with every boundary tuple
+// of the remaining arguments; the first one is sampleOp's.
+func argTuples(m, repo, repo2 string) []filt.Op {
+	base := sampleOp(m, repo, repo2, 0)
+	ops := []filt.Op{base}
+	with := func(f func(o *filt.Op)) {
+		o := base
+		f(&o)
+		for _, x := range ops {
+			if reflect.DeepEqual(x, o) {
+				return
+			}
+		}
+		ops = append(ops, o)
+	}
+	switch m {
+	case "GetBlob", "GetManifest", "ResolveBlob", "ResolveManifest", "DeleteBlob", "DeleteManifest":
+		for _, d := range digestArgs {
+			with(func(o *filt.Op) { o.Digest = d })
+		}
+	case "GetBlobRange":
+		for _, r := range rangeArgs {
+			with(func(o *filt.Op) { o.O0, o.O1 = r[0], r[1] })
+		}
+		for _, d := range digestArgs {
+			with(func(o *filt.Op) { o.Digest, o.O0, o.O1 = d, 0, -1 })
+		}
+	case "GetTag", "ResolveTag", "DeleteTag":
+		for _, t := range tagArgs {
+			with(func(o *filt.Op) { o.Tag = t })
+		}
+	case "PushBlob":
+		empty := dig("")
+		for _, v := range []struct {
+			d *filt.Desc
+			c S
+		}{
+			{nil, ""}, {nil, "foo"},
+			{&filt.Desc{Media: "application/json", Digest: empty, Size: 0}, ""},
+			{&filt.Desc{Media: "application/json", Digest: someDigest, Size: -1}, "foo"},
+			{&filt.Desc{Media: "application/json", Digest: someDigest, Size: 100}, "foo"},
+			{&filt.Desc{Media: "application/json", Digest: "", Size: 3}, "foo"},
+			{&filt.Desc{Digest: someDigest, Size: 3, Artifact: "some/artifact"}, "foo"},
+			{&filt.Desc{Media: "application/json", Digest: someDigest, Size: maxI}, ""},
+		} {
+			with(func(o *filt.Op) { o.Desc, o.Content = v.d, v.c })
+		}
+	case "PushBlobChunked":
+		for _, h := range []int64{0, -1, 1, maxI, minI} {
+			with(func(o *filt.Op) { o.Hint = h })
+		}
+	case "PushBlobChunkedResume":
+		// the empty id with offset 0 is how a caller says: a new upload
+		for _, v := range []struct {
+			id       S
+			off, hnt int64
+		}{
+			{"", 0, 0}, {"", 0, 7}, {"", 5, 0}, {"", -1, -1}, {"/someid", 0, 0}, {"/someid", -1, 0}, {"/someid", maxI, -1},
+			{S("/v2/" + repo + "/blobs/uploads/1"), 0, 0}, {S(repo), 1, 1}, {"../someid", 2, minI},
+		} {
+			with(func(o *filt.Op) { o.ID, o.Off, o.Hint = v.id, v.off, v.hnt })
+		}
+	case "MountBlob":
+		for _, d := range digestArgs {
+			with(func(o *filt.Op) { o.Digest = d })
+		}
+		// from and to the same repository
+		with(func(o *filt.Op) { o.Repo2 = o.Repo })
+		with(func(o *filt.Op) { o.Repo = o.Repo2 })
+	case "PushManifest":
+		for _, t := range tagArgs {
+			with(func(o *filt.Op) { o.Tag = t })
+		}
+		with(func(o *filt.Op) { o.Tag, o.Content, o.Media = "", "", "" })
+		with(func(o *filt.Op) { o.Content = "" })
+		with(func(o *filt.Op) { o.Media = "" })
+		with(func(o *filt.Op) { o.Tag, o.Content, o.Media = someDigest, S(manifestContent(repo)), manifestMedia })
+	case "Repositories":
+		with(func(o *filt.Op) { o.Start = "" })
+		with(func(o *filt.Op) { o.Start = S(repo2) })
+	case "Tags":
+		for _, st := range []S{"", "starttag", S(repo), "/", someDigest} {
+			with(func(o *filt.Op) { o.Start = st })
+		}
+	case "Referrers":
+		for _, d := range digestArgs {
+			with(func(o *filt.Op) { o.Digest = d })
+			with(func(o *filt.Op) { o.Digest, o.Art = d, "" })
+		}
+	}
+	return ops
+}
+
 // memOp: an operation that means something to the ocimem contents of newMem.
 func memOp(prefix, m string, repo, repo2 string, variant int) filt.Op {
 	op := sampleOp(m, repo, repo2, variant)
@@ -896,6 +1015,38 @@ func main() {
 				Backend: backendCfg{List: listingFor(p)}}, "enum-stack")
 		}
 	}
+	// ---- every boundary tuple of the other arguments x every method x the scope shapes: the
+	// argument values a wrapper could single out (whole-blob range, empty upload id, a tag
+	// that reads as a digest, empty start point, mount onto itself ...) must reach the backend
+	// as the same method with the same arguments, under the scope rewritten once. Views built
+	// in one step and as views of views; a clean name under every scope shape, and a name that
+	// repeats the prefix under the scopes that hold repository entries. ----
+	for _, v := range []struct {
+		p     string
+		stack []S
+	}{{"foo", nil}, {"a/b/c", nil}, {"foo/bar", []S{"foo", "bar"}}, {"a/a", []S{"a", "a"}}} {
+		for ni, n := range []string{"bar", "foo", "a"} {
+			shapes := []int{0, 1, 2, 3, 4, 5, 6, 7}
+			if ni > 0 {
+				shapes = []int{2, 3, 6}
+			}
+			if ni == 2 && v.p != "a/a" {
+				continue
+			}
+			for _, m := range filt.Methods {
+				for _, op := range argTuples(m, n, "x/y") {
+					for _, sk := range shapes {
+						k++
+						bc := backendCfg{Fail: k%5 == 0, List: []S{"t1", "t2"}}
+						if m == "Repositories" {
+							bc.List = listingFor(v.p)
+						}
+						add(input{Kind: "hist", Prefix: S(v.p), Stack: v.stack, Scope: scopesFor(n, "x/y", sk), Hist: []filt.Op{op}, Backend: bc}, "enum-args")
+					}
+				}
+			}
+		}
+	}
 	// ---- a sequence value iterated more than once: every iteration is the listing again
 	// (the start point, the name and the scope mean what they meant the first time) ----
 	for _, p := range prefixes {
@@ -982,7 +1133,16 @@ func main() {
 			if rnd.Intn(4) == 0 {
 				m = "Repositories"
 			}
-			h = append(h, sampleOp(m, randName(), randName(), rnd.Intn(4)))
+			op := sampleOp(m, randName(), randName(), rnd.Intn(4))
+			if rnd.Intn(2) == 0 {
+				// a boundary tuple of the other arguments
+				ts := argTuples(m, string(op.Repo), string(op.Repo2))
+				if m == "Repositories" {
+					ts = argTuples(m, string(op.Start), randName())
+				}
+				op = ts[rnd.Intn(len(ts))]
+			}
+			h = append(h, op)
 		}
 		h, again := withAgain(h)
 		bc := backendCfg{Fail: rnd.Intn(4) == 0, List: listingFor(p)}
@@ -1009,6 +1169,19 @@ func main() {
 			op := memOp(p, m, pick(), pick(), rnd.Intn(6))
 			if m == "Repositories" {
 				op.Start = S([]string{"", "b", "b/c", "c", "a", "other", "zz", "b/"}[rnd.Intn(8)])
+			}
+			switch m {
+			case "GetBlobRange":
+				r := memRanges[rnd.Intn(len(memRanges))]
+				op.O0, op.O1 = r[0], r[1]
+			case "Tags":
+				op.Start = S([]string{"", "", "t1", "t0", "t2"}[rnd.Intn(5)])
+			case "PushBlobChunked":
+				op.Hint = []int64{11, 0, -1, 1}[rnd.Intn(4)]
+			case "Referrers":
+				if rnd.Intn(2) == 0 {
+					op.Art = "application/vnd.oci.image.config.v1+json"
+				}
 			}
 			h = append(h, op)
 			if (m == "PushBlobChunked" || m == "PushBlobChunkedResume") && rnd.Intn(2) == 0 {
